@@ -10,6 +10,7 @@ import (
 	"encoding/binary"
 	"fmt"
 	"hash/fnv"
+	"strings"
 	"math/rand"
 	"net"
 	"sync"
@@ -76,8 +77,16 @@ func cidOfAddr(a string) int {
 	return addrConn[a]
 }
 
+var own *vtrace.Own
+
 func installSink() {
 	verifhook.SetSink(func(name string, args []any) {
+		if own != nil && own.Handle(name, args) {
+			return
+		}
+		if strings.HasPrefix(name, "buf.") || strings.HasPrefix(name, "obj.") {
+			return
+		}
 		if onlyEvents != nil && !onlyEvents[name] {
 			return
 		}
@@ -227,6 +236,9 @@ func (s *server) serveUDP() {
 		if err != nil {
 			return
 		}
+		if own != nil && vtrace.PoisonRun(buf[:n], 6) {
+			own.T.Emit("own.poison", "where", "udp query seen by the scripted server")
+		}
 		q := new(dns.Msg)
 		if err := q.Unpack(buf[:n]); err != nil || len(q.Question) != 1 {
 			continue
@@ -286,6 +298,9 @@ func (s *server) handleTCP(c net.Conn) {
 		body := make([]byte, binary.BigEndian.Uint16(hdr))
 		if _, err := readFull(c, body); err != nil {
 			return
+		}
+		if own != nil && vtrace.PoisonRun(body, 6) {
+			own.T.Emit("own.poison", "where", "tcp query seen by the scripted server")
 		}
 		q := new(dns.Msg)
 		if err := q.Unpack(body); err != nil || len(q.Question) != 1 {
